@@ -396,17 +396,64 @@ fn run_case<C: Suite>(c: &Case) -> Outcome {
             // wiped, but the library copies the coefficients into temporary plain vectors
             // (SecretPackage::coefficients()) that are freed unwiped. Those temporaries are not "the storage
             // the value occupied", so this is outside the property as stated (DESIGN 7).
-            if !c.ty.starts_with("refresh") {
+            // What IS asserted: the block that held the package's own coefficients (identified by its ADDRESS:
+            // the block allocated when the package was made that holds the coefficient images) must not show a
+            // coefficient at the moment it is released while part two consumes the package.
+            {
+                let refresh = c.ty.starts_with("refresh");
                 let idl: Vec<Id<C>> = grp.ids.clone();
-                if let Ok((sp1, p1)) = dkg_round1::<C>(n, t, &idl, &format!("c20run:{}", c.seed)) {
+                let mut sp1 = std::collections::BTreeMap::new();
+                let mut p1 = std::collections::BTreeMap::new();
+                let mut ok = true;
+                for pid in &idl {
+                    let mut rng = ScriptedRng::ctr(format!("c20part2:{}:{}", c.seed, id_hex::<C>(pid)));
+                    match if refresh { C::w_refresh_dkg_part1(*pid, n, t, &mut rng) } else { C::w_part1(*pid, n, t, &mut rng) } {
+                        Ok((s, p)) => {
+                            sp1.insert(*pid, s);
+                            p1.insert(*pid, p);
+                        }
+                        Err(_) => ok = false,
+                    }
+                }
+                if ok {
                     let me = idl[0];
                     let cf: Vec<Scalar<C>> = sp1[&me].coefficients();
                     let im2: Vec<Vec<u8>> = cf.iter().map(|s| image::<C>(s)).collect();
+                    let zimg: Vec<u8> = image::<C>(&zero::<C>());
                     let r1 = others::<C, _>(&p1, &me);
-                    let mine = sp1[&me].clone();
-                    let (res, blocks) = spy::watch(move || C::w_part2(mine, &r1));
-                    if res.is_ok() && im2.iter().any(|img| blocks.iter().any(|b| spy::contains(b, img))) {
-                        cx.o.count("info_part2_temporaries_hold_coefficients", 1);
+                    let (mine, allocs) = spy::track_allocs(|| std::hint::black_box(sp1[&me].clone()));
+                    // the clone's own coefficient buffer: a block allocated by the clone that holds every image
+                    let own: Vec<usize> = allocs
+                        .iter()
+                        .filter(|(a, sz)| {
+                            let live = unsafe { spy::peek(*a, *sz) };
+                            im2.iter().filter(|i| **i != zimg).all(|img| spy::contains(&live, img))
+                        })
+                        .map(|(a, _)| *a)
+                        .collect();
+                    let (res, blocks) = spy::watch_addr(move || if refresh { C::w_refresh_dkg_part2(mine, &r1) } else { C::w_part2(mine, &r1) });
+                    if res.is_ok() {
+                        if own.is_empty() {
+                            cx.o.count("info_part2_own_block_not_identified", 1);
+                        }
+                        let mut released = false;
+                        for (addr, b) in &blocks {
+                            if own.contains(addr) {
+                                released = true;
+                                if im2.iter().filter(|i| **i != zimg).any(|img| spy::contains(b, img)) {
+                                    cx.o.fail(
+                                        format!("{tag}/secret-left-in-freed-storage"),
+                                        format!("{ctxs}: the package's own coefficient block still shows a coefficient when it is released while {} consumes the package", if refresh { "refresh_dkg_part2" } else { "part2" }),
+                                    );
+                                }
+                            }
+                        }
+                        if released {
+                            cx.o.count("part2_own_block_release_checked", 1);
+                        }
+                        if im2.iter().any(|img| blocks.iter().any(|(a, b)| !own.contains(a) && spy::contains(b, img))) {
+                            cx.o.count("info_part2_temporaries_hold_coefficients", 1);
+                        }
                     }
                     drop(res);
                 }
